@@ -89,8 +89,8 @@ theorem Live.step_area_areas (L : Live) (a : AreaT) : ∀ x, x ∈ (L.step (.are
   simp only [Live.step, Live.areas]
   cases hk : a.kind <;> simp [hk] <;> grind
 
-theorem Inv.addArea {L : Live} {ever : List AreaT} {r r' : Rec} (h : Inv L ever r) (a : AreaT) (ha : AreaOK a)
-    (hstep : addArea r a = .ok r') : Inv (L.step (.area a)) (ever ++ [a]) r' := by
+theorem Inv.addArea {S : Prop} {L : Live} {ever : List AreaT} {r r' : Rec} (h : Inv S L ever r) (a : AreaT) (ha : AreaOK a)
+    (hstep : addArea r a = .ok r') : Inv S (L.step (.area a)) (ever ++ [a]) r' := by
   obtain ⟨hdis, hfound⟩ := addArea_ok hstep
   have f := reg_frame r a
   have c := h.core
@@ -237,19 +237,19 @@ theorem Inv.addArea {L : Live} {ever : List AreaT} {r r' : Rec} (h : Inv L ever 
       rcases hsplit hs with hs | ⟨hc, hd⟩
       · exact (eff.sections _).2 (Or.inl (by rw [f.sections]; exact c.sectionsComplete g' hg' d s hs))
       · exact (eff.sections _).2 (Or.inr ⟨(g', d, s), (hP _).2 ⟨hg', hc, hd⟩, rfl⟩)
-    · intro x hx
+    · intro hS x hx
       rw [hgenes]
       rcases (eff.defs x).1 hx with hx | ⟨t, ht, hdf, rfl⟩
       · rw [f.defs] at hx
-        obtain ⟨g', hg', d, hl, hdf, e⟩ := c.defsSound x hx
+        obtain ⟨g', hg', d, hl, hdf, e⟩ := c.defsSound hS x hx
         exact ⟨g', hg', d, hl.mono hever, hdf, e⟩
       · obtain ⟨hg, hc, hd⟩ := (hP t).1 ht
         exact ⟨t.1, hg, t.2.1, ⟨t.2.2, a, by simp, hc, hd⟩, hdf, rfl⟩
-    · intro g' hg' d hl hdf
+    · intro hS g' hg' d hl hdf
       rw [hgenes] at hg'
       obtain ⟨s, hs⟩ := hl
       rcases hsplit hs with hs | ⟨hc, hd⟩
-      · exact (eff.defs _).2 (Or.inl (by rw [f.defs]; exact c.defsComplete g' hg' d ⟨s, hs⟩ hdf))
+      · exact (eff.defs _).2 (Or.inl (by rw [f.defs]; exact c.defsComplete hS g' hg' d ⟨s, hs⟩ hdf))
       · exact (eff.defs _).2 (Or.inr ⟨(g', d, s), (hP _).2 ⟨hg', hc, hd⟩, hdf, rfl⟩)
     · obtain ⟨pre, e, hpre⟩ := eff.regionOf
       intro x hx
